@@ -15,4 +15,6 @@ for f in sorted(os.listdir(HERE)):
 # reasons for properties that are not claimed (MANIFEST.not_applicable)
 NOT_CLAIMED_REASON = {}
 # commits in /repo that add cfg(routinator_verif) hooks
-HOOK_COMMITS = []
+HOOK_COMMITS = [
+    "0a7bef8 verif hook: SharedHistory::verif_init_at / verif_delta_count",
+]
